@@ -4818,11 +4818,15 @@ class ParameterizedMetaclass(type):
                 parameter.owner = mcs
                 # As for instance-level copies, the copy must not share
                 # mutable attribute values (e.g. the objects of a Selector)
-                # with the Parameter it was copied from
+                # with the Parameter it was copied from. The table of
+                # class-level watchers stays the one of the declaration:
+                # whether a watcher hears of an assignment on an inheriting
+                # class, and whether unwatch silences it there, must not
+                # depend on when that class was first assigned
                 for slot in type(parameter)._all_slots_:
                     v = getattr(parameter, slot)
                     if slot == 'watchers':
-                        parameter.watchers = {what: list(ws) for what, ws in v.items()}
+                        continue
                     elif _is_mutable_container(v) and slot != 'default':
                         setattr(parameter, slot, copy.copy(v))
                 type.__setattr__(mcs,attribute_name,parameter)
